@@ -390,6 +390,18 @@ theorem insert_inline_is_the_source_u32 {D : Type} (g : Rng D) (fuel e : Nat) (h
       ∃ t', insert cfg32 g (fuel + 1) (.stack t) e d = .ok ((.stack t', b), d) ∧ TinyC.toWord TinyC.codec32 t' = w) :=
   ⟨fun h => insert_empty_32_eq g fuel e he d w b h, fun t wf h => insert_stack_32_eq g fuel t wf e he d w b h⟩
 
+/-- **`remove` on an inline set is the source's**: the `Stack` arm of `SetU32::remove` (shape pinned) — membership by
+running the translated inline iterator to its end, then the null word for the last member or `collect()` of what
+`t.filter(|&x| x != e)` yields —: the model's `remove` answers and continues exactly so (`collect()` itself is the
+model's `fromIterSorted`, tied by runs) -/
+theorem remove_inline_is_the_source_u32 {D : Type} (g : Rng D) (fuel : Nat) (t : TinyC.T) (wf : WF cfg32 (.stack t)) (e : Nat) (d : D) :
+    remove cfg32 g fuel (.stack t) e d =
+      (match Gen.remove_stack_32 t.sz t.bits e with
+       | none => .ok ((.stack t, false), d)
+       | some none => .ok ((.empty, true), d)
+       | some (some v) => (do let r ← fromIterSorted cfg32 g fuel v; pure (r, true) : M D (Rp × Bool)) d) :=
+  remove_stack_32_eq g fuel t wf e d
+
 end C02
 
 #print axioms C02.insert_refines_u32
